@@ -282,8 +282,8 @@ impl Check for C04 {
     }
     fn budget(&self, tier: Tier) -> u64 {
         match tier {
-            Tier::Quick => crate::model::exhaustive_count(3) + 200_000,
-            Tier::Thorough => crate::model::exhaustive_count(4) + 30_000_000,
+            Tier::Quick => crate::model::exhaustive_count(3) + 800_000,
+            Tier::Thorough => crate::model::exhaustive_count(4) + 100_000_000,
         }
     }
     fn generate(&self, rng: &mut Rng, idx: u64, tier: Tier) -> Option<E1Scn> {
@@ -692,8 +692,8 @@ impl Check for C06 {
     }
     fn budget(&self, tier: Tier) -> u64 {
         match tier {
-            Tier::Quick => 200_000,
-            Tier::Thorough => 20_000_000,
+            Tier::Quick => 1_000_000,
+            Tier::Thorough => 100_000_000,
         }
     }
     fn generate(&self, rng: &mut Rng, idx: u64, _tier: Tier) -> Option<E1Scn> {
@@ -971,8 +971,8 @@ impl Check for C07 {
     }
     fn budget(&self, tier: Tier) -> u64 {
         match tier {
-            Tier::Quick => 200_000,
-            Tier::Thorough => 20_000_000,
+            Tier::Quick => 1_000_000,
+            Tier::Thorough => 100_000_000,
         }
     }
     fn generate(&self, rng: &mut Rng, idx: u64, _tier: Tier) -> Option<E1Scn> {
@@ -1227,8 +1227,8 @@ impl Check for C10 {
     }
     fn budget(&self, tier: Tier) -> u64 {
         match tier {
-            Tier::Quick => 200_000,
-            Tier::Thorough => 20_000_000,
+            Tier::Quick => 1_000_000,
+            Tier::Thorough => 100_000_000,
         }
     }
     fn generate(&self, rng: &mut Rng, idx: u64, _tier: Tier) -> Option<E1Scn> {
